@@ -17,7 +17,7 @@ RULE = ("(e) explicit-state BFS to a fixpoint: IdentityDict vs a list-of-pairs r
         "through the tower must land on it. (b) every nesting path of depth <= 3 over {function, class, async function, lambda-free} "
         "with unique names. (c) pairs of equal-but-distinct code objects: registration affects only the registered one, the latest "
         "registration wins. (d) 2^3 flags x {no elaborate, returns None, returns replacement, returns PRUNE, returns []} x {direct, decorator, nested-name}. "
-        "states/transitions count leg (e); evaluations counts all legs.")
+        "(each also observed through extract_outermost). (f) customize on the first of 2..4 sibling stack items handed over together by the hook of the frame outward of them: prune / replacement removes all of them. states/transitions count leg (e); evaluations counts all legs.")
 ASSUMPTIONS = ["towers are well-formed: a raw classmethod/staticmethod object is only ever the outermost layer or accessed through its class"]
 
 
@@ -478,6 +478,49 @@ def check_latest_wins():
     return problems
 
 
+def check_sibling_items():
+    """customize options on a frame whose callees are SEVERAL stack items handed over together (by a hook of the frame
+    outward of it): prune / an elaborate replacement must remove all of them, whatever their number."""
+    import stackscope
+    problems = []
+
+    def mkgen(name):
+        ns = {}
+        exec("def %s():\n    yield 1\n" % name, ns)
+        g = ns[name]()
+        next(g)
+        return ns[name], g
+    for nsib in (2, 3, 4):
+        for mode in ("prune", "prune+elab-none", "replace"):
+            for form in ("direct", "decorator"):
+                runner_fn, runner = mkgen("runner")
+                sibs = [mkgen("sib%d" % i) for i in range(nsib)]
+                other_fn, other = mkgen("other")
+                stackscope.customize(runner_fn, elaborate=lambda frame, nxt, sibs=sibs: [g for _, g in sibs])
+                kw = {}
+                if mode == "prune":
+                    kw = {"prune": True}
+                elif mode == "prune+elab-none":
+                    kw = {"prune": True, "elaborate": lambda frame, nxt: None}
+                else:
+                    kw = {"elaborate": lambda frame, nxt, other=other: other}
+                if form == "direct":
+                    stackscope.customize(sibs[0][0], hide=True, **kw)
+                else:
+                    stackscope.customize(hide=True, **kw)(sibs[0][0])
+                with warnings.catch_warnings():
+                    warnings.simplefilter("ignore")
+                    st = stackscope.extract(runner)
+                names = [f.funcname for f in st.frames]
+                want = ["runner", "sib0"] + (["other"] if mode == "replace" else [])
+                if names != want or st.error is not None or not st.frames[1].hide:
+                    problems.append("%d sibling items, %s (%s form): frames %r expected %r, hide %r, error %r" % (
+                        nsib, mode, form, names, want, [f.hide for f in st.frames], st.error))
+                for _, g in sibs + [(None, runner), (None, other)]:
+                    g.close()
+    return problems
+
+
 # ------------------------------------------------------------------ (e) IdentityDict model checking
 class EqKey(object):
     def __init__(self, name, token):
@@ -711,6 +754,11 @@ def run(ctx):
     ctx.count("evaluations")
     if problems:
         ctx.violation({"leg": "latest"}, "; ".join(problems), "latest")
+    problems = check_sibling_items()
+    ctx.count("evaluations", 18)
+    ctx.count("sibling_item_cases", 18)
+    if problems:
+        ctx.violation({"leg": "siblings"}, "; ".join(problems)[:1500], "siblings")
 
 
 def replay(case):
@@ -723,6 +771,8 @@ def replay(case):
         return [{"detail": p} for p in check_customize(case)]
     if leg == "latest":
         return [{"detail": p} for p in check_latest_wins()]
+    if leg == "siblings":
+        return [{"detail": p} for p in check_sibling_items()]
 
     class C(object):
         def __init__(s):
